@@ -68,6 +68,11 @@ func (c *gadgetCircuit) Define(api frontend.API) error {
 		inv, has := chip.Inverse(v(0))
 		api.AssertIsEqual(inv.Limb, c.Out[0])
 		api.AssertIsEqual(has, c.Out[1])
+	case "ToVec":
+		bc := poseidon.NewBN254Chip(api)
+		for i, o := range bc.ToVec(c.In[0]) {
+			api.AssertIsEqual(o.Limb, c.Out[i])
+		}
 	case "SBox":
 		pc := poseidon.NewGoldilocksChip(api)
 		f := fn[func(*poseidon.GoldilocksChip, gl.Variable) gl.Variable]("poseidon.GoldilocksChip.sBoxMonomial")
